@@ -153,15 +153,13 @@ class Polygon(Geometry):
         rectangle the model knows about, else None."""
         if self._box is not None:
             a, b, c, d = self._box
-            return (a if a <= c else c, b if b <= d else d, c if a <= c else a, d if b <= d else b)
+            return (_sym.fmin(a, c), _sym.fmin(b, d), _sym.fmax(a, c), _sym.fmax(b, d))
         img = getattr(self, "_box_img", None)
         if img is not None:
             # corners in box() order: (x1,y0),(x1,y1),(x0,y1),(x0,y0)
             (ax, ay), (bx, by), (cx, cy), (dx, dy) = img[:4]
             if ax == bx and cx == dx and ay == dy and by == cy:
-                x0, x1 = (cx, ax) if cx <= ax else (ax, cx)
-                y0, y1 = (ay, by) if ay <= by else (by, ay)
-                return (x0, y0, x1, y1)
+                return (_sym.fmin(cx, ax), _sym.fmin(ay, by), _sym.fmax(cx, ax), _sym.fmax(ay, by))
         return None
 
     @property
@@ -176,13 +174,27 @@ class Polygon(Geometry):
         s = other.rect() if isinstance(other, Polygon) else None
         if r is None or s is None:
             raise OutsideModel("general intersection is computed by GEOS")
-        x0 = r[0] if r[0] >= s[0] else s[0]
-        y0 = r[1] if r[1] >= s[1] else s[1]
-        x1 = r[2] if r[2] <= s[2] else s[2]
-        y1 = r[3] if r[3] <= s[3] else s[3]
-        if x1 <= x0 or y1 <= y0:
-            return _Empty()
-        return box(x0, y0, x1, y1)
+        # state-merged: one expression instead of a path per ordering
+        w = _sym.fmax(0, _sym.fmin(r[2], s[2]) - _sym.fmax(r[0], s[0]))
+        hgt = _sym.fmax(0, _sym.fmin(r[3], s[3]) - _sym.fmax(r[1], s[1]))
+        return _RectIntersection(w * hgt)
+
+
+class _RectIntersection(Geometry):
+    """intersection of two axis-aligned rectangles: only its area is stated"""
+
+    geom_type = "Polygon"
+
+    def __init__(self, area):
+        self._area = area
+
+    @property
+    def area(self):
+        return self._area
+
+    @property
+    def bounds(self):
+        raise OutsideModel("bounds of an intersection")
 
 
 class _Empty(Geometry):
